@@ -70,8 +70,13 @@ def strategy_(draw, tier):
             ops.append(["reattach", draw(st.sampled_from(["r", "w", "w"]))])
         elif c < 92:
             ops.append(["reopen", draw(st.sampled_from(["r", "w", "w"]))])
-        elif c < 97:
+        elif c < 95:
             ops.append(["inquire"])
+        elif c < 98:
+            # class / name edits of the (possibly already stored) table, of lengths around the current ones
+            ops.append([draw(st.sampled_from(["setclass", "setclass", "setname"])),
+                        draw(st.sampled_from(["", "c", "raw", "tbl2", "calibrated", "temperature_table",
+                                              "a class name that is longer than any of the table names"]))])
         else:
             ops.append(["fpack", draw(st.integers(1, 5)), draw(st.integers(0, 99))])
     blocks = None
@@ -164,6 +169,8 @@ def run_case(case):
         def nrecs():
             return table[0].shape[0]
 
+        curname = case["name"]
+        curclass = None
         for op in case["ops"]:
             k = op[0]
             if k == "write":
@@ -252,7 +259,7 @@ def run_case(case):
                     pos = nrecs()
             elif k == "inquire":
                 ln = p.call("i", "VSinquire", V("vs"), Out(4), Out(4), OutS(2000), Out(4), OutS(300))
-                checks.append((ln, "inquire", (nrecs(), allnames, recsize, case["name"], file_il)))
+                checks.append((ln, "inquire", (nrecs(), allnames, recsize, curname, file_il)))
                 checks.append((p.call("i", "VSgetinterlace", V("vs")), "retn", (file_il, "VSgetinterlace")))
                 checks.append((p.call("i", "VSfexist", V("vs"), allnames), "retn", (1, "VSfexist(all)")))
                 checks.append((p.call("i", "VSfexist", V("vs"), "no_such_field"), "retn", (-1, "VSfexist(absent)")))
@@ -271,6 +278,19 @@ def run_case(case):
                     checks.append((p.call("i", "VFfieldisize", V("vs"), i), "retn", (sizes[i], "VFfieldisize %d" % i)))
                 checks.append((p.call("i", "VSsizeof", V("vs"), allnames), "retn", (recsize, "VSsizeof(all)")))
                 checks.append((p.call("i", "VSsizeof", V("vs"), fields[-1][0]), "retn", (sizes[-1], "VSsizeof(last)")))
+            elif k in ("setclass", "setname"):
+                if mode != "w":
+                    continue
+                if k == "setclass":
+                    curclass = op[1]
+                    checks.append((p.call("i", "VSsetclass", V("vs"), curclass), "ret0", "VSsetclass"))
+                else:
+                    curname = op[1]
+                    checks.append((p.call("i", "VSsetname", V("vs"), curname), "ret0", "VSsetname (rename)"))
+                checks.append((p.call("i", "VSgetclass", V("vs"), OutS(300)), "outs", ((curclass or "").encode(), "VSgetclass")))
+                if curname is not None:
+                    checks.append((p.call("i", "VSgetname", V("vs"), OutS(300)), "outs", (curname.encode(), "VSgetname")))
+                labels.add("class_or_name_edit")
             elif k == "fpack":
                 # pack n records of all fields from per-field buffers, unpack again: must round-trip
                 n, seed = op[1], op[2]
@@ -288,6 +308,9 @@ def run_case(case):
         checks.append((p.call("i", "VSattach", V("f"), V("ref"), "r", bind="vs"), "nofail", "VSattach r"))
         n = nrecs()
         checks.append((p.call("i", "VSelts", V("vs")), "retn", (n, "VSelts final")))
+        checks.append((p.call("i", "VSgetclass", V("vs"), OutS(300)), "outs", ((curclass or "").encode(), "VSgetclass final")))
+        if curname is not None:
+            checks.append((p.call("i", "VSgetname", V("vs"), OutS(300)), "outs", (curname.encode(), "VSgetname final")))
         if n > 0:
             for il in (FULL, NOI):
                 checks.append((p.call("i", "VSseek", V("vs"), 0), "retn", (0, "VSseek 0")))
@@ -320,6 +343,9 @@ def run_case(case):
                 elif ck == "rets":
                     if r.ret != pay[0]:
                         raise Fail("%s returned wrong string" % pay[1], expected=str(pay[0]), observed=str(r.ret))
+                elif ck == "outs":
+                    if r.ret != 0 or r.bufs[0] != pay[0]:
+                        raise Fail("%s differs from what was set" % pay[1], expected=str(pay[0]), observed=str(r.bufs[0]), ret=r.ret)
                 elif ck == "read":
                     n, specs, il, exp, what = pay
                     if r.ret != n:
